@@ -5,7 +5,12 @@
                     and its derivative is the value of the tree [D w e];
      D_value        ... and that tree has a real value;
      dom_D          the derivative tree is again inside the fragment (so D can be iterated);
-     hess_correct   the (i, j) tree of [hess] is the derivative of the i-th gradient entry.
+     dom_open       [dom] holds on a neighbourhood of the point;
+     hess_correct   the (i, j) tree of [hess] is the derivative of the i-th gradient entry;
+     hess_is_second_derivative_mixed / _diag   ... hence the second partial derivative of the value;
+     hess_symmetric the values of D w' (D w e) and D w (D w' e) are equal (by induction on the tree, with
+                    the semantic derivation rules tv_plus, tv_times, ... -- no appeal to Schwarz' theorem);
+     aggregate_gradient / aggregate_hessian, scaling_linear, Phi_exists.
 
    The only thing assumed is the Section hypothesis [Phi_derive] on the normal CDF. *)
 From Coq Require Import Reals ZArith List String Bool Lra Lia.
@@ -1499,6 +1504,901 @@ Section AtPoint.
     exact (map_nth cell names EmptyString j).
   Qed.
 End AtPoint.
+
+(* ------------------------------------------------------------------ the derivative tree mentions only what the tree mentions *)
+Definition ment_any (u : wrt) (l : list expr) : bool := existsb (mentions u) l.
+
+Lemma mentions_node u h kids : mentions u (Node h kids) = is_wrt u h || ment_any u kids.
+Proof. reflexivity. Qed.
+
+Lemma is_wrt_num u d : is_wrt u (HNum d) = false.  Proof. destruct u; reflexivity. Qed.
+Lemma is_wrt_bin u o : is_wrt u (HBin o) = false.  Proof. destruct u; reflexivity. Qed.
+Lemma is_wrt_un u o : is_wrt u (HUn o) = false.  Proof. destruct u; reflexivity. Qed.
+Lemma is_wrt_powc u c : is_wrt u (HPowC c) = false.  Proof. destruct u; reflexivity. Qed.
+Lemma is_wrt_multsum u : is_wrt u HMultSum = false.  Proof. destruct u; reflexivity. Qed.
+Lemma is_wrt_condsum u : is_wrt u HCondSum = false.  Proof. destruct u; reflexivity. Qed.
+Lemma is_wrt_elem u k : is_wrt u (HElem k) = false.  Proof. destruct u; reflexivity. Qed.
+
+Ltac mnorm :=
+  unfold normal_density, EBin, EUn, EPowC in *;
+  repeat (progress (rewrite ?mentions_node, ?is_wrt_bin, ?is_wrt_un, ?is_wrt_num, ?is_wrt_powc, ?is_wrt_elem,
+                            ?is_wrt_condsum, ?is_wrt_multsum; cbn [ment_any existsb orb]));
+  rewrite ?orb_false_r.
+
+Lemma ment_any_cons u a l : ment_any u (a :: l) = mentions u a || ment_any u l.
+Proof. reflexivity. Qed.
+Lemma ment_any_nil u : ment_any u [] = false.
+Proof. reflexivity. Qed.
+
+Lemma ment_any_app u a b : ment_any u (a ++ b) = ment_any u a || ment_any u b.
+Proof. apply existsb_app. Qed.
+
+Lemma ment_any_in u l k : In k l -> mentions u k = true -> ment_any u l = true.
+Proof. intros Hin Hm. apply existsb_exists. exists k. auto. Qed.
+
+Lemma ment_any_firstn u n l : ment_any u (firstn n l) = true -> ment_any u l = true.
+Proof.
+  intros H. apply existsb_exists in H. destruct H as (k & Hin & Hm).
+  apply (ment_any_in u l k); [|exact Hm]. rewrite <- (firstn_skipn n l). apply in_or_app. left; exact Hin.
+Qed.
+Lemma ment_any_skipn u n l : ment_any u (skipn n l) = true -> ment_any u l = true.
+Proof.
+  intros H. apply existsb_exists in H. destruct H as (k & Hin & Hm).
+  apply (ment_any_in u l k); [|exact Hm]. rewrite <- (firstn_skipn n l). apply in_or_app. right; exact Hin.
+Qed.
+
+Lemma ment_dlin u : forall kids dk,
+  ment_any u (dlin kids dk) = true -> ment_any u kids = true \/ ment_any u dk = true.
+Proof.
+  fix IH 1. intros [|b [|v r]] dk; cbn [dlin ment_any existsb]; try discriminate.
+  destruct dk as [|db [|dv dr]]; cbn [dlin ment_any existsb]; try discriminate.
+  unfold EBin. repeat (rewrite ?mentions_node, ?is_wrt_bin; cbn [ment_any existsb orb]).
+  rewrite !orb_false_r.
+  intros H. apply orb_true_iff in H. destruct H as [H|H].
+  - destruct (mentions u db), (mentions u v), (mentions u b), (mentions u dv); cbn in *; try discriminate; auto.
+  - destruct (IH r dr H) as [H'|H']; [left | right]; unfold ment_any in H'; rewrite H'; rewrite !orb_true_r; reflexivity.
+Qed.
+
+Lemma ment_dcond u : forall kids dk,
+  ment_any u (dcond kids dk) = true -> ment_any u kids = true \/ ment_any u dk = true.
+Proof.
+  fix IH 1. intros [|c [|t r]] dk; cbn [dcond ment_any existsb]; try discriminate.
+  destruct dk as [|dc [|dt dr]]; cbn [dcond ment_any existsb]; try discriminate.
+  intros H. apply orb_true_iff in H. destruct H as [H|H]; [left; rewrite H; reflexivity|].
+  apply orb_true_iff in H. destruct H as [H|H]; [right; rewrite H; rewrite orb_true_r; reflexivity|].
+  destruct (IH r dr H) as [H'|H']; [left | right]; unfold ment_any in *; rewrite H'; rewrite !orb_true_r; reflexivity.
+Qed.
+
+Lemma ment_assoc u k ak (avs : list expr) a : assoc_Z k ak avs = Some a -> mentions u a = true -> ment_any u avs = true.
+Proof. intros H Hm. apply (ment_any_in u avs a); [eapply assoc_Z_In; exact H | exact Hm]. Qed.
+
+Lemma ment_logit_den u ak avs : forall uk us,
+  ment_any u (logit_den_kids uk us ak avs) = true -> ment_any u us = true \/ ment_any u avs = true.
+Proof.
+  induction uk as [|k ks IH]; intros [|x r]; cbn [logit_den_kids]; try discriminate.
+  destruct (assoc_Z k ak avs) as [a|] eqn:Ea.
+  - intros H. change (ment_any u (a :: EUn Exp x :: logit_den_kids ks r ak avs))
+      with (mentions u a || (mentions u (EUn Exp x) || ment_any u (logit_den_kids ks r ak avs))) in H.
+    change (ment_any u (x :: r)) with (mentions u x || ment_any u r).
+    unfold EUn in H. rewrite mentions_node, is_wrt_un in H. cbn [ment_any existsb orb] in H. rewrite orb_false_r in H.
+    apply orb_true_iff in H. destruct H as [H|H]; [right; exact (ment_assoc u k ak avs a Ea H)|].
+    apply orb_true_iff in H. destruct H as [H|H]; [left; rewrite H; reflexivity|].
+    destruct (IH r H) as [H'|H']; [left | right; exact H']. rewrite H'. apply orb_true_r.
+  - intros H. change (ment_any u (x :: r)) with (mentions u x || ment_any u r).
+    destruct (IH r H) as [H'|H']; [left | right; exact H']. rewrite H'. apply orb_true_r.
+Qed.
+
+Lemma ment_logit_num u ak avs : forall uk us dus,
+  ment_any u (logit_num_kids uk us dus ak avs) = true ->
+  ment_any u us = true \/ ment_any u dus = true \/ ment_any u avs = true.
+Proof.
+  induction uk as [|k ks IH]; intros [|x r] [|dx dr]; cbn [logit_num_kids]; try discriminate.
+  destruct (assoc_Z k ak avs) as [a|] eqn:Ea.
+  - intros H. change (ment_any u (a :: EBin Times (EUn Exp x) dx :: logit_num_kids ks r dr ak avs))
+      with (mentions u a || (mentions u (EBin Times (EUn Exp x) dx) || ment_any u (logit_num_kids ks r dr ak avs))) in H.
+    change (ment_any u (x :: r)) with (mentions u x || ment_any u r).
+    change (ment_any u (dx :: dr)) with (mentions u dx || ment_any u dr).
+    unfold EBin, EUn in H. rewrite !mentions_node, is_wrt_bin in H. cbn [ment_any existsb orb] in H.
+    rewrite mentions_node, is_wrt_un in H. cbn [ment_any existsb orb] in H. rewrite !orb_false_r in H.
+    apply orb_true_iff in H. destruct H as [H|H]; [right; right; exact (ment_assoc u k ak avs a Ea H)|].
+    apply orb_true_iff in H. destruct H as [H|H].
+    + apply orb_true_iff in H. destruct H as [H|H]; [left | right; left]; rewrite H; reflexivity.
+    + destruct (IH r dr H) as [H'|[H'|H']]; [left | right; left | right; right; exact H']; rewrite H'; apply orb_true_r.
+  - intros H. change (ment_any u (x :: r)) with (mentions u x || ment_any u r).
+    change (ment_any u (dx :: dr)) with (mentions u dx || ment_any u dr).
+    destruct (IH r dr H) as [H'|[H'|H']]; [left | right; left | right; right; exact H']; rewrite H'; apply orb_true_r.
+Qed.
+
+Lemma ment_dnode u v h kids dk :
+  mentions u (dnode v h kids dk) = true -> ment_any u kids = true \/ ment_any u dk = true.
+Proof.
+  assert (Z0 : mentions u zero = false) by (destruct u; reflexivity).
+  assert (Z1 : mentions u one = false) by (destruct u; reflexivity).
+  assert (Z2 : mentions u two = false) by (destruct u; reflexivity).
+  destruct h as [d|n f|n|n t|n|op|op|exponent|n|n|s| | |keys| |uk ak]; cbn [dnode]; try (rewrite Z0; discriminate).
+  - (* HBeta *) destruct kids; [destruct (is_wrt v _); rewrite ?Z0, ?Z1; discriminate | rewrite Z0; discriminate].
+  - destruct kids; [destruct (is_wrt v _); rewrite ?Z0, ?Z1; discriminate | rewrite Z0; discriminate].
+  - destruct kids; [destruct (is_wrt v _); rewrite ?Z0, ?Z1; discriminate | rewrite Z0; discriminate].
+  - (* HBin *)
+    destruct op; try (rewrite Z0; discriminate);
+      destruct kids as [|x [|y [|? ?]]]; try (rewrite Z0; discriminate);
+      destruct dk as [|dx [|dy [|? ?]]]; try (rewrite Z0; discriminate);
+      unfold EBin, EUn;
+      repeat (progress (rewrite ?mentions_node, ?is_wrt_bin, ?is_wrt_un; cbn [ment_any existsb orb]));
+      destruct (mentions u x), (mentions u y), (mentions u dx), (mentions u dy); cbn; auto.
+  - (* HUn *)
+    destruct op; try (rewrite Z0; discriminate);
+      destruct kids as [|x [|? ?]]; try (rewrite Z0; discriminate);
+      destruct dk as [|dx [|? ?]]; try (rewrite Z0; discriminate);
+      unfold normal_density, two, ENumZ, EBin, EUn;
+      repeat (progress (rewrite ?mentions_node, ?is_wrt_bin, ?is_wrt_un, ?is_wrt_num; cbn [ment_any existsb orb]));
+      destruct (mentions u x), (mentions u dx); cbn; auto.
+  - (* HPowC *)
+    destruct kids as [|x [|? ?]]; try (rewrite Z0; discriminate).
+    destruct dk as [|dx [|? ?]]; try (rewrite Z0; discriminate).
+    assert (Hg : mentions u (EBin Times (EBin Times (Node (HNum exponent) []) (EPowC x (dy_pred exponent))) dx) = true ->
+                 ment_any u [x] = true \/ ment_any u [dx] = true).
+    { unfold EBin, EPowC.
+      repeat (progress (rewrite ?mentions_node, ?is_wrt_bin, ?is_wrt_powc, ?is_wrt_num; cbn [ment_any existsb orb])).
+      destruct (mentions u x), (mentions u dx); cbn; auto. }
+    destruct (dyadic_is_int exponent) as [[|p|p]|]; [rewrite Z0; discriminate | exact Hg ..].
+  - (* HMultSum *) rewrite mentions_node, is_wrt_multsum. cbn [orb]. auto.
+  - (* HCondSum *) rewrite mentions_node, is_wrt_condsum. cbn [orb]. apply ment_dcond.
+  - (* HElem *)
+    destruct kids as [|key entries]; [rewrite Z0; discriminate|].
+    destruct dk as [|dkey dentries]; [rewrite Z0; discriminate|].
+    rewrite mentions_node, is_wrt_elem. cbn [ment_any existsb orb].
+    intros H. apply orb_true_iff in H. destruct H as [H|H]; [left | right]; rewrite H; rewrite ?orb_true_r; reflexivity.
+  - (* HLinUtil *) rewrite mentions_node, is_wrt_multsum. cbn [orb]. apply ment_dlin.
+  - (* HLogLogit *)
+    unfold dloglogit.
+    destruct kids as [|choice rest]; [rewrite Z0; discriminate|].
+    destruct dk as [|dchoice drest]; [rewrite Z0; discriminate|].
+    unfold EBin.
+    repeat (progress (rewrite ?mentions_node, ?is_wrt_bin, ?is_wrt_elem, ?is_wrt_condsum, ?ment_any_cons, ?ment_any_nil, ?orb_false_r; cbn [orb])).
+    intros H. apply orb_true_iff in H. destruct H as [H|H].
+    + apply orb_true_iff in H. destruct H as [H|H]; [left; rewrite H; reflexivity|].
+      right. apply ment_any_firstn in H. rewrite H. apply orb_true_r.
+    + apply orb_true_iff in H. destruct H as [H|H].
+      * destruct (ment_logit_num _ _ _ _ _ _ H) as [H'|[H'|H']].
+        -- left. apply ment_any_firstn in H'. rewrite H'. apply orb_true_r.
+        -- right. apply ment_any_firstn in H'. rewrite H'. apply orb_true_r.
+        -- left. apply ment_any_skipn in H'. rewrite H'. apply orb_true_r.
+      * destruct (ment_logit_den _ _ _ _ _ H) as [H'|H'].
+        -- left. apply ment_any_firstn in H'. rewrite H'. apply orb_true_r.
+        -- left. apply ment_any_skipn in H'. rewrite H'. apply orb_true_r.
+Qed.
+
+Theorem mentions_D u v : forall e, mentions u (D v e) = true -> mentions u e = true.
+Proof.
+  induction e as [h kids IH] using expr_ind_strong'. rewrite D_eq.
+  destruct (mentions v (Node h kids)); [|destruct u; discriminate].
+  intros H. apply ment_dnode in H. rewrite mentions_node.
+  destruct H as [H|H]; [rewrite H; apply orb_true_r|].
+  unfold ment_any in H. apply existsb_exists in H. destruct H as (dk & Hin & Hm).
+  apply in_map_iff in Hin. destruct Hin as (k & <- & Hk).
+  rewrite Forall_forall in IH. rewrite (ment_any_in u kids k Hk (IH k Hk Hm)). apply orb_true_r.
+Qed.
+
+(* ------------------------------------------------------------------ semantic derivation rules *)
+Definition sumR (l : list R) : R := fold_right Rplus 0 l.
+
+Lemma kids_nomention v h kids k : mentions v (Node h kids) = false -> In k kids -> mentions v k = false.
+Proof.
+  rewrite mentions_node. intros H Hin. apply orb_false_iff in H. destruct H as [_ H].
+  exact (existsb_false_in _ _ _ H Hin).
+Qed.
+
+Section Sym.
+  Variable Phi : R -> R.
+  Hypothesis Phi_derive : forall x, is_derive Phi x (D2R inv_sqrt_2pi * exp (- (x * x / 2))).
+  Variable ws : list wrt.
+  Variable en : env.
+  Notation ev := (evalX Phi).
+  Notation domE := (dom Phi ws en).
+
+  Ltac nf := unfold normal_density, zero, one, two, EBin, EUn, EPowC, ENumZ in *.
+  Ltac evs :=
+    repeat (progress rewrite ?ev_bin, ?ev_numZ, ?ev_num, ?ev_uminus, ?ev_exp, ?ev_log, ?ev_sin, ?ev_cos,
+                     ?ev_ncdf, ?ev_powc).
+
+  (* t has the real value r and its v-derivative tree has the real value d *)
+  Definition tval (v : wrt) (t : expr) (r d : R) : Prop := ev t en = XR r /\ ev (D v t) en = XR d.
+
+  Definition okv (v : wrt) : Prop := In v ws /\ exists x, wrt_val en v = Some x.
+
+  Lemma tv_dom v t : okv v -> domE t -> exists r d, tval v t r d.
+  Proof.
+    intros [Hin (x & Hx)] Hd.
+    destruct (D_value_at Phi Phi_derive ws en v x t Hin Hx Hd) as (d & Ed).
+    pose proof (dom_value Phi Phi_derive ws v Hin en x t) as Hv. rewrite (upd_self en v x Hx) in Hv.
+    destruct (Hv Hd) as (r & Er). exists r, d. split; assumption.
+  Qed.
+
+  Lemma tv_fun v t r d r' d' : tval v t r d -> tval v t r' d' -> r = r' /\ d = d'.
+  Proof. intros [A B] [A' B']. rewrite A in A'. rewrite B in B'. injection A' as <-. injection B' as <-. auto. Qed.
+
+  Lemma ev_zero : ev zero en = XR 0.
+  Proof. unfold zero, ENumZ. rewrite ev_numZ. reflexivity. Qed.
+
+  (* a kid of a node that does not mention v has derivative value 0 *)
+  Lemma kid_zero v h kids k r d :
+    mentions v (Node h kids) = false -> In k kids -> tval v k r d -> d = 0.
+  Proof.
+    intros E Hin [_ Dk]. rewrite (D_nomention v k (kids_nomention v h kids k E Hin)) in Dk.
+    rewrite ev_zero in Dk. injection Dk as <-. reflexivity.
+  Qed.
+
+  Lemma tv_num v c : tval v (Node (HNum c) []) (D2R c) 0.
+  Proof.
+    split; [reflexivity|]. rewrite D_nomention by (destruct v; reflexivity). apply ev_zero.
+  Qed.
+
+  Lemma tv_numZ v z : tval v (ENumZ z) (IZR z) 0.
+  Proof.
+    split; [unfold ENumZ; apply ev_numZ|]. rewrite D_nomention by (destruct v; reflexivity). apply ev_zero.
+  Qed.
+
+  (* the common shape of the proofs: value by evaluation; derivative by cases on [mentions] *)
+  Ltac rule2 Ha Hb :=
+    let Ea := fresh "Ea" in let Da := fresh "Da" in let Eb := fresh "Eb" in let Db := fresh "Db" in
+    pose proof Ha as [Ea Da]; pose proof Hb as [Eb Db].
+
+  Lemma tv_plus v a b ra da rb db :
+    tval v a ra da -> tval v b rb db -> tval v (EBin Plus a b) (ra + rb) (da + db).
+  Proof.
+    intros Ha Hb. rule2 Ha Hb. split; [nf; evs; rewrite Ea, Eb; reflexivity|].
+    unfold EBin. rewrite D_eq. destruct (mentions v _) eqn:E.
+    - cbn [dnode map]. nf. evs. rewrite Da, Db. reflexivity.
+    - rewrite (kid_zero v _ _ a ra da E) by (cbn; auto).
+      rewrite (kid_zero v _ _ b rb db E) by (cbn; auto). rewrite ev_zero. f_equal. ring.
+  Qed.
+
+  Lemma tv_minus v a b ra da rb db :
+    tval v a ra da -> tval v b rb db -> tval v (EBin Minus a b) (ra - rb) (da - db).
+  Proof.
+    intros Ha Hb. rule2 Ha Hb. split; [nf; evs; rewrite Ea, Eb; reflexivity|].
+    unfold EBin. rewrite D_eq. destruct (mentions v _) eqn:E.
+    - cbn [dnode map]. nf. evs. rewrite Da, Db. reflexivity.
+    - rewrite (kid_zero v _ _ a ra da E) by (cbn; auto).
+      rewrite (kid_zero v _ _ b rb db E) by (cbn; auto). rewrite ev_zero. f_equal. ring.
+  Qed.
+
+  Lemma tv_times v a b ra da rb db :
+    tval v a ra da -> tval v b rb db -> tval v (EBin Times a b) (ra * rb) (da * rb + ra * db).
+  Proof.
+    intros Ha Hb. rule2 Ha Hb. split; [nf; evs; rewrite Ea, Eb; reflexivity|].
+    unfold EBin. rewrite D_eq. destruct (mentions v _) eqn:E.
+    - cbn [dnode map]. nf. evs. rewrite Da, Db, Ea, Eb. reflexivity.
+    - rewrite (kid_zero v _ _ a ra da E) by (cbn; auto).
+      rewrite (kid_zero v _ _ b rb db E) by (cbn; auto). rewrite ev_zero. f_equal. ring.
+  Qed.
+
+  Lemma tv_divide v a b ra da rb db :
+    rb <> 0 -> tval v a ra da -> tval v b rb db ->
+    tval v (EBin Divide a b) (ra / rb) ((da * rb - ra * db) / (rb * rb)).
+  Proof.
+    intros Hnz Ha Hb. rule2 Ha Hb.
+    split; [nf; evs; rewrite Ea, Eb; cbn [xbin]; rewrite Rnz_true by exact Hnz; reflexivity|].
+    unfold EBin. rewrite D_eq. destruct (mentions v _) eqn:E.
+    - cbn [dnode map]. nf. evs. rewrite Da, Db, Ea, Eb. cbn [xbin lift2].
+      rewrite Rnz_true; [reflexivity|]. apply Rmult_integral_contrapositive; split; exact Hnz.
+    - rewrite (kid_zero v _ _ a ra da E) by (cbn; auto).
+      rewrite (kid_zero v _ _ b rb db E) by (cbn; auto). rewrite ev_zero. f_equal. field. exact Hnz.
+  Qed.
+
+  Lemma tv_power v a b ra da rb db :
+    0 < ra -> tval v a ra da -> tval v b rb db ->
+    tval v (EBin Power a b) (Rpower ra rb) (Rpower ra rb * (db * ln ra + rb * da / ra)).
+  Proof.
+    intros Hpos Ha Hb. rule2 Ha Hb.
+    split; [nf; evs; rewrite Ea, Eb; cbn [xbin]; rewrite Rltb'_true by exact Hpos; reflexivity|].
+    unfold EBin. rewrite D_eq. destruct (mentions v _) eqn:E.
+    - cbn [dnode map]. nf. evs. rewrite Da, Db, Ea, Eb. cbn [xbin lift2 xun].
+      rewrite !Rltb'_true by exact Hpos. cbn [lift2]. rewrite Rnz_true by lra. reflexivity.
+    - rewrite (kid_zero v _ _ a ra da E) by (cbn; auto).
+      rewrite (kid_zero v _ _ b rb db E) by (cbn; auto). rewrite ev_zero. f_equal. field. lra.
+  Qed.
+
+  Lemma tv_uminus v a ra da : tval v a ra da -> tval v (EUn UMinus a) (- ra) (- da).
+  Proof.
+    intros [Ea Da]. split; [nf; evs; rewrite Ea; reflexivity|].
+    unfold EUn. rewrite D_eq. destruct (mentions v _) eqn:E.
+    - cbn [dnode map]. nf. evs. rewrite Da. reflexivity.
+    - rewrite (kid_zero v _ _ a ra da E) by (cbn; auto || split; assumption). rewrite ev_zero. f_equal. ring.
+  Qed.
+
+  Lemma tv_exp v a ra da : tval v a ra da -> tval v (EUn Exp a) (exp ra) (exp ra * da).
+  Proof.
+    intros [Ea Da]. split; [nf; evs; rewrite Ea; reflexivity|].
+    unfold EUn. rewrite D_eq. destruct (mentions v _) eqn:E.
+    - cbn [dnode map]. nf. evs. rewrite Da, Ea. reflexivity.
+    - rewrite (kid_zero v _ _ a ra da E) by (cbn; auto || split; assumption). rewrite ev_zero. f_equal. ring.
+  Qed.
+
+  Lemma tv_log v a ra da : 0 < ra -> tval v a ra da -> tval v (EUn Log a) (ln ra) (da / ra).
+  Proof.
+    intros Hpos [Ea Da]. split; [nf; evs; rewrite Ea; cbn [xun]; rewrite Rltb'_true by exact Hpos; reflexivity|].
+    unfold EUn. rewrite D_eq. destruct (mentions v _) eqn:E.
+    - cbn [dnode map]. nf. evs. rewrite Da, Ea. cbn [xbin]. rewrite Rnz_true by lra. reflexivity.
+    - rewrite (kid_zero v _ _ a ra da E) by (cbn; auto || split; assumption). rewrite ev_zero. f_equal. field. lra.
+  Qed.
+
+  Lemma tv_sin v a ra da : tval v a ra da -> tval v (EUn Sin a) (sin ra) (cos ra * da).
+  Proof.
+    intros [Ea Da]. split; [nf; evs; rewrite Ea; reflexivity|].
+    unfold EUn. rewrite D_eq. destruct (mentions v _) eqn:E.
+    - cbn [dnode map]. nf. evs. rewrite Da, Ea. reflexivity.
+    - rewrite (kid_zero v _ _ a ra da E) by (cbn; auto || split; assumption). rewrite ev_zero. f_equal. ring.
+  Qed.
+
+  Lemma tv_cos v a ra da : tval v a ra da -> tval v (EUn Cos a) (cos ra) (- (sin ra * da)).
+  Proof.
+    intros [Ea Da]. split; [nf; evs; rewrite Ea; reflexivity|].
+    unfold EUn. rewrite D_eq. destruct (mentions v _) eqn:E.
+    - cbn [dnode map]. nf. evs. rewrite Da, Ea. reflexivity.
+    - rewrite (kid_zero v _ _ a ra da E) by (cbn; auto || split; assumption). rewrite ev_zero. f_equal. ring.
+  Qed.
+
+  (* ---------------------------------------------------------------- x ** c *)
+  Definition powv (c : dyadic) (x : R) : R :=
+    match dyadic_is_int c with Some n => powerRZ x n | None => Rpower x (D2R c) end.
+  Definition dpowv (c : dyadic) (x : R) : R :=
+    match dyadic_is_int c with
+    | Some 0%Z => 0
+    | Some n => IZR n * powerRZ x (n - 1)
+    | None => D2R c * Rpower x (D2R c - 1)
+    end.
+
+  Lemma xpowc_ok c x : powc_ok c x -> xpowc c (XR x) = XR (powv c x).
+  Proof.
+    unfold powc_ok, xpowc, powv. destruct (dyadic_is_int c) as [n|].
+    - intros H. destruct (Z.leb_spec 0 n); [reflexivity|].
+      destruct H as [H|H]; [lia|]. rewrite Rnz_true by exact H. reflexivity.
+    - intros H. rewrite Rltb'_true by exact H. reflexivity.
+  Qed.
+
+  Lemma powc_ok_pred c x : powc_ok c x -> dyadic_is_int c <> Some 0%Z -> powc_ok (dy_pred c) x.
+  Proof.
+    unfold powc_ok. rewrite dy_pred_int. destruct (dyadic_is_int c) as [n|]; cbn [option_map]; [|auto].
+    intros [H|H] Hn; [left | right; exact H]. assert (n <> 0)%Z by congruence. lia.
+  Qed.
+
+  Lemma tv_powc v a c ra da :
+    powc_ok c ra -> tval v a ra da -> tval v (EPowC a c) (powv c ra) (dpowv c ra * da).
+  Proof.
+    intros Hok [Ea Da]. split; [nf; evs; rewrite Ea; apply xpowc_ok; exact Hok|].
+    unfold EPowC. rewrite D_eq. destruct (mentions v _) eqn:E.
+    - cbn [dnode map].
+      assert (Hgen : dyadic_is_int c <> Some 0%Z ->
+                     ev (EBin Times (EBin Times (Node (HNum c) []) (EPowC a (dy_pred c))) (D v a)) en
+                     = XR (D2R c * powv (dy_pred c) ra * da)).
+      { intros Hn. nf. evs. rewrite Ea, Da, (xpowc_ok _ _ (powc_ok_pred c ra Hok Hn)). reflexivity. }
+      unfold dpowv, powv in *. rewrite dy_pred_int in Hgen. rewrite dy_pred_D2R in Hgen.
+      destruct (dyadic_is_int c) as [n|] eqn:Ec; cbn [option_map] in Hgen.
+      + destruct (Z.eq_dec n 0) as [->|Hn].
+        * rewrite ev_zero. f_equal. ring.
+        * rewrite (dyadic_is_int_D2R c n Ec) in Hgen.
+          destruct n; [congruence | apply Hgen; congruence | apply Hgen; congruence].
+      + apply Hgen. congruence.
+    - rewrite (kid_zero v _ _ a ra da E) by (cbn; auto || split; assumption). rewrite ev_zero. f_equal. ring.
+  Qed.
+
+  (* ---------------------------------------------------------------- n-ary operators *)
+  Definition val_at (t : expr) : R := valR (ev t en).
+  Definition dval_at (v : wrt) (t : expr) : R := valR (ev (D v t) en).
+
+  Lemma tv_val v t r d : tval v t r d -> val_at t = r /\ dval_at v t = d.
+  Proof. intros [A B]. unfold val_at, dval_at. rewrite A, B. auto. Qed.
+
+  Lemma tv_vd v t r d : tval v t r d -> tval v t (val_at t) (dval_at v t).
+  Proof. intros H. destruct (tv_val v t r d H) as [-> ->]. exact H. Qed.
+
+  Lemma dval_nomention v t : mentions v t = false -> dval_at v t = 0.
+  Proof. intros H. unfold dval_at. rewrite D_nomention by exact H. rewrite ev_zero. reflexivity. Qed.
+
+  Lemma xsum_reals {A} (l : list A) (g : A -> xval) (f : A -> R) :
+    (forall k, In k l -> g k = XR (f k)) -> xsum (map g l) = XR (sumR (map f l)).
+  Proof.
+    induction l as [|a l IH]; intros H; [reflexivity|].
+    cbn [map]. rewrite xsum_cons, (H a (or_introl eq_refl)), IH by (intros k Hk; apply H; right; exact Hk).
+    reflexivity.
+  Qed.
+
+  Lemma sumR_zero {A} (l : list A) (f : A -> R) : (forall k, In k l -> f k = 0) -> sumR (map f l) = 0.
+  Proof.
+    induction l as [|a l IH]; intros H; [reflexivity|]. cbn [map sumR fold_right].
+    rewrite (H a (or_introl eq_refl)). fold (sumR (map f l)). rewrite IH by (intros k Hk; apply H; right; exact Hk). ring.
+  Qed.
+
+  Lemma tv_multsum v kids :
+    (forall k, In k kids -> exists r d, tval v k r d) ->
+    tval v (Node HMultSum kids) (sumR (map val_at kids)) (sumR (map (dval_at v) kids)).
+  Proof.
+    intros H.
+    assert (Hk : forall k, In k kids -> tval v k (val_at k) (dval_at v k)).
+    { intros k Hin. destruct (H k Hin) as (r & d & Ht). exact (tv_vd v k r d Ht). }
+    split.
+    - rewrite ev_multsum. apply xsum_reals. intros k Hin. exact (proj1 (Hk k Hin)).
+    - rewrite D_eq. destruct (mentions v _) eqn:E.
+      + cbn [dnode]. rewrite ev_multsum, map_map.
+        apply xsum_reals. intros k Hin. exact (proj2 (Hk k Hin)).
+      + rewrite ev_zero. f_equal. symmetry. apply sumR_zero. intros k Hin.
+        apply dval_nomention. exact (kids_nomention v _ _ k E Hin).
+  Qed.
+
+  (* ConditionalSum: the terms whose condition holds *)
+  Definition csum (g : expr -> R) (ps : list (expr * expr)) : R :=
+    sumR (map (fun p => if Rnz (val_at (fst p)) then g (snd p) else 0) ps).
+
+  Definition cond_real (v : wrt) (p : expr * expr) : Prop :=
+    exists c, ev (fst p) en = XR c /\ (c <> 0 -> exists r d, tval v (snd p) r d).
+
+  Lemma map_flatten {B} (h : expr -> B) ps :
+    map h (flatten_pairs ps) = flat_map (fun p => [h (fst p); h (snd p)]) ps.
+  Proof. induction ps as [|[a b] ps IH]; cbn [flatten_pairs map flat_map app fst snd]; [reflexivity | rewrite IH; reflexivity]. Qed.
+
+  Lemma xcondsum_pairs (ps : list (expr * expr)) (g : expr -> xval) (f : expr -> R) :
+    (forall p, In p ps -> exists c, ev (fst p) en = XR c /\ (c <> 0 -> g (snd p) = XR (f (snd p)))) ->
+    xcondsum (flat_map (fun p => [ev (fst p) en; g (snd p)]) ps) = XR (csum f ps).
+  Proof.
+    unfold csum. induction ps as [|p ps IH]; intros H; [reflexivity|].
+    cbn [flat_map app xcondsum map sumR fold_right].
+    destruct (H p (or_introl eq_refl)) as (c & Ec & Hc).
+    rewrite IH by (intros q Hq; apply H; right; exact Hq).
+    assert (Hv : val_at (fst p) = c) by (unfold val_at; rewrite Ec; reflexivity).
+    rewrite Hv, Ec. fold (sumR (map (fun p0 : expr * expr => if Rnz (val_at (fst p0)) then f (snd p0) else 0) ps)).
+    destruct (Rnz c) eqn:En.
+    - rewrite (Hc (Rnz_true_inv c En)). reflexivity.
+    - f_equal. ring.
+  Qed.
+
+  Lemma tv_condsum v ps :
+    (forall p, In p ps -> cond_real v p) ->
+    tval v (ECondSum ps) (csum val_at ps) (csum (dval_at v) ps).
+  Proof.
+    intros H. unfold ECondSum. split.
+    - rewrite ev_condsum, map_flatten. apply (xcondsum_pairs ps (fun t => ev t en) val_at). intros p Hp.
+      destruct (H p Hp) as (c & Ec & Hc). exists c. split; [exact Ec|]. intros Hn.
+      destruct (Hc Hn) as (r & d & Ht). exact (proj1 (tv_vd v _ r d Ht)).
+    - rewrite D_eq. destruct (mentions v _) eqn:E.
+      + cbn [dnode]. rewrite dcond_flatten, ev_condsum, map_flatten.
+        rewrite flat_map_concat_map, map_map, <- flat_map_concat_map. cbn [fst snd].
+        apply (xcondsum_pairs ps (fun t => ev (D v t) en) (dval_at v)). intros p Hp.
+        destruct (H p Hp) as (c & Ec & Hc). exists c. split; [exact Ec|]. intros Hn.
+        destruct (Hc Hn) as (r & d & Ht). exact (proj2 (tv_vd v _ r d Ht)).
+      + rewrite ev_zero. f_equal. symmetry. unfold csum. apply sumR_zero. intros p Hp.
+        destruct (Rnz (val_at (fst p))); [|reflexivity].
+        apply dval_nomention. apply (kids_nomention v _ _ _ E).
+        clear - Hp. induction ps as [|[a b] ps IH]; cbn [In flatten_pairs] in *; [tauto|].
+        destruct Hp as [<-|Hp]; cbn [snd]; auto.
+  Qed.
+
+  Lemma tv_elem v keys key entries z sel r d :
+    ev key en = XR (IZR z) -> assoc_Z z keys entries = Some sel -> tval v sel r d ->
+    tval v (Node (HElem keys) (key :: entries)) r d.
+  Proof.
+    intros Hk Hs [Es Ds]. split.
+    - rewrite ev_elem. cbn [map xelem]. rewrite Hk, R2Z_IZR', assoc_Z_map, Hs. cbn [option_map]. rewrite Es. reflexivity.
+    - rewrite D_eq. destruct (mentions v _) eqn:E.
+      + cbn [dnode map]. rewrite ev_elem. cbn [map xelem]. rewrite Hk, R2Z_IZR', map_map, assoc_Z_map, Hs.
+        cbn [option_map]. rewrite Ds. reflexivity.
+      + rewrite ev_zero. f_equal. symmetry.
+        apply (kid_zero v _ _ sel r d E); [right; eapply assoc_Z_In; exact Hs | split; assumption].
+  Qed.
+
+  (* ---------------------------------------------------------------- symmetry of the Hessian trees *)
+  Variables w w' : wrt.
+  Hypothesis Hw : okv w.
+  Hypothesis Hw' : okv w'.
+
+  Lemma dom_D' v t : okv v -> domE t -> domE (D v t).
+  Proof. intros [Hin (x & Hx)] Hd. exact (dom_D_at Phi Phi_derive ws en v x t Hin Hx Hd). Qed.
+
+  Lemma kidT k : domE k ->
+    tval w k (val_at k) (dval_at w k) /\ tval w' k (val_at k) (dval_at w' k) /\
+    tval w' (D w k) (dval_at w k) (dval_at w' (D w k)) /\ tval w (D w' k) (dval_at w' k) (dval_at w (D w' k)).
+  Proof.
+    intros Hd.
+    destruct (tv_dom w k Hw Hd) as (r1 & d1 & T1). destruct (tv_dom w' k Hw' Hd) as (r2 & d2 & T2).
+    destruct (tv_dom w' (D w k) Hw' (dom_D' w k Hw Hd)) as (r3 & d3 & T3).
+    destruct (tv_dom w (D w' k) Hw (dom_D' w' k Hw' Hd)) as (r4 & d4 & T4).
+    repeat split; try (eapply proj1, tv_vd; eassumption); try (eapply proj2, tv_vd; eassumption).
+  Qed.
+
+  Lemma not_mentioned_D u v t : mentions u t = false -> mentions u (D v t) = false.
+  Proof.
+    intros H. destruct (mentions u (D v t)) eqn:E; [|reflexivity].
+    rewrite (mentions_D u v t E) in H. discriminate.
+  Qed.
+
+
+  (* ---------------------------------------------------------------- LogLogit: the availability skeleton *)
+  Fixpoint skel (uk : list Z) (us : list expr) (ak : list Z) (avs : list expr) : list (expr * expr) :=
+    match uk, us with
+    | k :: ks, u :: r =>
+        match assoc_Z k ak avs with
+        | Some a => (a, u) :: skel ks r ak avs
+        | None => skel ks r ak avs
+        end
+    | _, _ => []
+    end.
+
+  Definition phi_num (v : wrt) (q : expr * expr) : expr * expr :=
+    (fst q, EBin Times (EUn Exp (snd q)) (D v (snd q))).
+  Definition psi_den (q : expr * expr) : expr * expr := (fst q, EUn Exp (snd q)).
+
+  Lemma num_pairs_skel v ak avs : forall uk us,
+    logit_num_pairs uk us (map (D v) us) ak avs = map (phi_num v) (skel uk us ak avs).
+  Proof.
+    induction uk as [|k ks IH]; intros [|u r]; try reflexivity.
+    cbn [map logit_num_pairs skel]. destruct (assoc_Z k ak avs); cbn [map]; rewrite IH; reflexivity.
+  Qed.
+
+  Lemma den_pairs_skel ak avs : forall uk us,
+    logit_den_pairs uk us ak avs = map psi_den (skel uk us ak avs).
+  Proof.
+    induction uk as [|k ks IH]; intros [|u r]; try reflexivity.
+    cbn [logit_den_pairs skel]. destruct (assoc_Z k ak avs); cbn [map]; rewrite IH; reflexivity.
+  Qed.
+
+  Lemma skel_in ak avs q : forall uk us,
+    In q (skel uk us ak avs) -> exists k, In (k, snd q) (combine uk us) /\ assoc_Z k ak avs = Some (fst q).
+  Proof.
+    induction uk as [|k ks IH]; intros [|u r]; cbn [skel combine In]; try tauto.
+    destruct (assoc_Z k ak avs) as [a|] eqn:Ea.
+    - intros [<-|Hq]; [exists k; cbn [fst snd]; auto|].
+      destruct (IH r Hq) as (k' & Hin & Ha). exists k'. auto.
+    - intros Hq. destruct (IH r Hq) as (k' & Hin & Ha). exists k'. auto.
+  Qed.
+
+  (* a real denominator: every availability that is looked up is a real number, and the
+     denominator is the sum of exp(V) over the available alternatives *)
+  Lemma den_real ak avs : forall uk us d,
+    logit_denominator uk (map (fun k => ev k en) us) ak (map (fun k => ev k en) avs) = XR d ->
+    (forall q, In q (skel uk us ak avs) -> exists c, ev (fst q) en = XR c) /\
+    ((forall q, In q (skel uk us ak avs) -> val_at (fst q) <> 0 -> exists r, ev (snd q) en = XR r) ->
+     d = sumR (map (fun q => if Rnz (val_at (fst q)) then exp (val_at (snd q)) else 0) (skel uk us ak avs))).
+  Proof.
+    induction uk as [|k ks IH]; intros [|u r] d Hd; try discriminate.
+    - cbn in Hd. injection Hd as <-. split; [intros q []|reflexivity].
+    - cbn [map logit_denominator skel] in *. rewrite assoc_Z_map in Hd.
+      destruct (assoc_Z k ak avs) as [a|] eqn:Ea; cbn [option_map] in Hd; [|exact (IH r d Hd)].
+      destruct (ev a en) as [c| |] eqn:Eca; try discriminate.
+      assert (Hva : val_at a = c) by (unfold val_at; rewrite Eca; reflexivity).
+      destruct (Rnz c) eqn:En.
+      + destruct (logit_denominator ks (map (fun k0 => ev k0 en) r) ak (map (fun k0 => ev k0 en) avs)) as [d'| |] eqn:Ed';
+          try (destruct (lift1 exp (ev u en)); discriminate).
+        destruct (IH r d' Ed') as [I1 I2]. split.
+        * intros q [<-|Hq]; [exists c; exact Eca | exact (I1 q Hq)].
+        * intros Hr. cbn [map sumR fold_right fst snd]. rewrite Hva, En.
+          destruct (Hr (a, u) (or_introl eq_refl)) as (ru & Eru); [cbn [fst]; rewrite Hva; exact (Rnz_true_inv c En)|].
+          cbn [snd] in Eru. rewrite Eru in Hd. cbn [lift1 lift2] in Hd. injection Hd as <-.
+          assert (Hvu : val_at u = ru) by (unfold val_at; rewrite Eru; reflexivity).
+          rewrite (I2 (fun q Hq => Hr q (or_intror Hq))), Hvu. reflexivity.
+      + destruct (IH r d Hd) as [I1 I2]. split.
+        * intros q [<-|Hq]; [exists c; exact Eca | exact (I1 q Hq)].
+        * intros Hr. cbn [map sumR fold_right fst snd]. rewrite Hva, En.
+          rewrite (I2 (fun q Hq => Hr q (or_intror Hq))). unfold sumR. ring.
+  Qed.
+
+  Lemma csum_map g (phi : expr * expr -> expr * expr) sk :
+    (forall q, fst (phi q) = fst q) ->
+    csum g (map phi sk) = sumR (map (fun q => if Rnz (val_at (fst q)) then g (snd (phi q)) else 0) sk).
+  Proof.
+    intros Hf. unfold csum. rewrite map_map. f_equal. apply map_ext. intros q. rewrite Hf. reflexivity.
+  Qed.
+
+  Lemma sumR_ext {A} (f g : A -> R) l : (forall q, In q l -> f q = g q) -> sumR (map f l) = sumR (map g l).
+  Proof. intros H. f_equal. apply map_ext_in. exact H. Qed.
+
+  Ltac fin L Rr := rewrite (proj2 (tv_val _ _ _ _ L)), (proj2 (tv_val _ _ _ _ Rr)).
+
+  Theorem hess_sym_dval : forall e, domE e -> dval_at w' (D w e) = dval_at w (D w' e).
+  Proof.
+    induction e as [h kids IH] using expr_ind_strong'. intros Hdom.
+    rewrite Forall_forall in IH.
+    destruct (mentions w (Node h kids)) eqn:Ew.
+    2:{ rewrite (D_nomention w _ Ew). rewrite (dval_nomention w' zero) by (destruct w'; reflexivity).
+        symmetry. apply dval_nomention. apply not_mentioned_D. exact Ew. }
+    destruct (mentions w' (Node h kids)) eqn:Ew'.
+    2:{ rewrite (D_nomention w' _ Ew'). rewrite (dval_nomention w zero) by (destruct w; reflexivity).
+        apply dval_nomention. apply not_mentioned_D. exact Ew'. }
+    rewrite (D_eq w), Ew, (D_eq w'), Ew'.
+    inversion Hdom; subst.
+    - (* parameter-free *)
+      exfalso. match goal with H : pfree _ _ = true |- _ =>
+        rewrite (pfree_nomention ws w _ (proj1 Hw) H) in Ew; discriminate end.
+    - (* HBeta *) cbn [dnode].
+      destruct (is_wrt w (HBeta n f)), (is_wrt w' (HBeta n f));
+        rewrite !dval_nomention by (destruct w, w'; reflexivity); reflexivity.
+    - cbn [dnode].
+      destruct (is_wrt w (HVar n)), (is_wrt w' (HVar n));
+        rewrite !dval_nomention by (destruct w, w'; reflexivity); reflexivity.
+    - cbn [dnode].
+      destruct (is_wrt w (HRV n)), (is_wrt w' (HRV n));
+        rewrite !dval_nomention by (destruct w, w'; reflexivity); reflexivity.
+    - (* plus *)
+      destruct (kidT x) as (Tx & Tx' & TDx & TDx'); [assumption|].
+      destruct (kidT y) as (Ty & Ty' & TDy & TDy'); [assumption|].
+      cbn [dnode map].
+      pose proof (tv_plus w' _ _ _ _ _ _ TDx TDy) as L. pose proof (tv_plus w _ _ _ _ _ _ TDx' TDy') as Rr.
+      fin L Rr. rewrite (IH x), (IH y) by (cbn [In]; auto). reflexivity.
+    - (* minus *)
+      destruct (kidT x) as (Tx & Tx' & TDx & TDx'); [assumption|].
+      destruct (kidT y) as (Ty & Ty' & TDy & TDy'); [assumption|].
+      cbn [dnode map].
+      pose proof (tv_minus w' _ _ _ _ _ _ TDx TDy) as L. pose proof (tv_minus w _ _ _ _ _ _ TDx' TDy') as Rr.
+      fin L Rr. rewrite (IH x), (IH y) by (cbn [In]; auto). reflexivity.
+    - (* times *)
+      destruct (kidT x) as (Tx & Tx' & TDx & TDx'); [assumption|].
+      destruct (kidT y) as (Ty & Ty' & TDy & TDy'); [assumption|].
+      cbn [dnode map].
+      pose proof (tv_plus w' _ _ _ _ _ _ (tv_times w' _ _ _ _ _ _ TDx Ty') (tv_times w' _ _ _ _ _ _ Tx' TDy)) as L.
+      pose proof (tv_plus w _ _ _ _ _ _ (tv_times w _ _ _ _ _ _ TDx' Ty) (tv_times w _ _ _ _ _ _ Tx TDy')) as Rr.
+      fin L Rr. rewrite (IH x), (IH y) by (cbn [In]; auto). ring.
+    - (* divide *)
+      destruct (kidT x) as (Tx & Tx' & TDx & TDx'); [assumption|].
+      destruct (kidT y) as (Ty & Ty' & TDy & TDy'); [assumption|].
+      assert (Hy : val_at y <> 0).
+      { unfold val_at. match goal with H : evalX _ y _ = XR v |- _ => rewrite H end. assumption. }
+      assert (Hyy : val_at y * val_at y <> 0) by (apply Rmult_integral_contrapositive; split; exact Hy).
+      cbn [dnode map].
+      pose proof (tv_divide w' _ _ _ _ _ _ Hyy
+                    (tv_minus w' _ _ _ _ _ _ (tv_times w' _ _ _ _ _ _ TDx Ty') (tv_times w' _ _ _ _ _ _ Tx' TDy))
+                    (tv_times w' _ _ _ _ _ _ Ty' Ty')) as L.
+      pose proof (tv_divide w _ _ _ _ _ _ Hyy
+                    (tv_minus w _ _ _ _ _ _ (tv_times w _ _ _ _ _ _ TDx' Ty) (tv_times w _ _ _ _ _ _ Tx TDy'))
+                    (tv_times w _ _ _ _ _ _ Ty Ty)) as Rr.
+      fin L Rr. rewrite (IH x), (IH y) by (cbn [In]; auto). field. exact Hy.
+    - (* power *)
+      destruct (kidT x) as (Tx & Tx' & TDx & TDx'); [assumption|].
+      destruct (kidT y) as (Ty & Ty' & TDy & TDy'); [assumption|].
+      assert (Hx : 0 < val_at x).
+      { unfold val_at. match goal with H : evalX _ x _ = XR v |- _ => rewrite H end. assumption. }
+      assert (Hx0 : val_at x <> 0) by lra.
+      cbn [dnode map].
+      pose proof (tv_times w' _ _ _ _ _ _ (tv_power w' _ _ _ _ _ _ Hx Tx' Ty')
+                    (tv_plus w' _ _ _ _ _ _ (tv_times w' _ _ _ _ _ _ TDy (tv_log w' _ _ _ Hx Tx'))
+                                             (tv_divide w' _ _ _ _ _ _ Hx0 (tv_times w' _ _ _ _ _ _ Ty' TDx) Tx'))) as L.
+      pose proof (tv_times w _ _ _ _ _ _ (tv_power w _ _ _ _ _ _ Hx Tx Ty)
+                    (tv_plus w _ _ _ _ _ _ (tv_times w _ _ _ _ _ _ TDy' (tv_log w _ _ _ Hx Tx))
+                                            (tv_divide w _ _ _ _ _ _ Hx0 (tv_times w _ _ _ _ _ _ Ty TDx') Tx))) as Rr.
+      fin L Rr. rewrite (IH x), (IH y) by (cbn [In]; auto). field. exact Hx0.
+    - (* uminus *)
+      destruct (kidT x) as (Tx & Tx' & TDx & TDx'); [assumption|].
+      cbn [dnode map].
+      pose proof (tv_uminus w' _ _ _ TDx) as L. pose proof (tv_uminus w _ _ _ TDx') as Rr.
+      fin L Rr. rewrite (IH x) by (cbn [In]; auto). reflexivity.
+    - (* exp *)
+      destruct (kidT x) as (Tx & Tx' & TDx & TDx'); [assumption|].
+      cbn [dnode map].
+      pose proof (tv_times w' _ _ _ _ _ _ (tv_exp w' _ _ _ Tx') TDx) as L.
+      pose proof (tv_times w _ _ _ _ _ _ (tv_exp w _ _ _ Tx) TDx') as Rr.
+      fin L Rr. rewrite (IH x) by (cbn [In]; auto). ring.
+    - (* log *)
+      destruct (kidT x) as (Tx & Tx' & TDx & TDx'); [assumption|].
+      assert (Hx : val_at x <> 0).
+      { unfold val_at. match goal with H : evalX _ x _ = XR v |- _ => rewrite H end. cbn [valR]. lra. }
+      cbn [dnode map].
+      pose proof (tv_divide w' _ _ _ _ _ _ Hx TDx Tx') as L. pose proof (tv_divide w _ _ _ _ _ _ Hx TDx' Tx) as Rr.
+      fin L Rr. rewrite (IH x) by (cbn [In]; auto). field. exact Hx.
+    - (* sin *)
+      destruct (kidT x) as (Tx & Tx' & TDx & TDx'); [assumption|].
+      cbn [dnode map].
+      pose proof (tv_times w' _ _ _ _ _ _ (tv_cos w' _ _ _ Tx') TDx) as L.
+      pose proof (tv_times w _ _ _ _ _ _ (tv_cos w _ _ _ Tx) TDx') as Rr.
+      fin L Rr. rewrite (IH x) by (cbn [In]; auto). ring.
+    - (* cos *)
+      destruct (kidT x) as (Tx & Tx' & TDx & TDx'); [assumption|].
+      cbn [dnode map].
+      pose proof (tv_uminus w' _ _ _ (tv_times w' _ _ _ _ _ _ (tv_sin w' _ _ _ Tx') TDx)) as L.
+      pose proof (tv_uminus w _ _ _ (tv_times w _ _ _ _ _ _ (tv_sin w _ _ _ Tx) TDx')) as Rr.
+      fin L Rr. rewrite (IH x) by (cbn [In]; auto). ring.
+    - (* normal cdf *)
+      destruct (kidT x) as (Tx & Tx' & TDx & TDx'); [assumption|].
+      assert (H2 : IZR 2 <> 0) by (apply not_0_IZR; lia).
+      cbn [dnode map]. unfold normal_density, two.
+      pose proof (tv_times w' _ _ _ _ _ _
+                    (tv_times w' _ _ _ _ _ _ (tv_num w' inv_sqrt_2pi)
+                       (tv_exp w' _ _ _ (tv_uminus w' _ _ _ (tv_divide w' _ _ _ _ _ _ H2 (tv_times w' _ _ _ _ _ _ Tx' Tx') (tv_numZ w' 2)))))
+                    TDx) as L.
+      pose proof (tv_times w _ _ _ _ _ _
+                    (tv_times w _ _ _ _ _ _ (tv_num w inv_sqrt_2pi)
+                       (tv_exp w _ _ _ (tv_uminus w _ _ _ (tv_divide w _ _ _ _ _ _ H2 (tv_times w _ _ _ _ _ _ Tx Tx) (tv_numZ w 2)))))
+                    TDx') as Rr.
+      fin L Rr. rewrite (IH x) by (cbn [In]; auto). field.
+    - (* powc *)
+      destruct (kidT x) as (Tx & Tx' & TDx & TDx'); [assumption|].
+      match goal with H : powc_ok c v |- _ => rename H into Hok end.
+      assert (Hv : val_at x = v).
+      { unfold val_at. match goal with H : evalX _ x _ = XR v |- _ => rewrite H end. reflexivity. }
+      rewrite <- Hv in Hok.
+      cbn [dnode map].
+      destruct (dyadic_is_int c) as [[|p|p]|] eqn:Ec;
+        try (rewrite !dval_nomention by (destruct w, w'; reflexivity); reflexivity).
+      + assert (Hn : dyadic_is_int c <> Some 0%Z) by congruence.
+        pose proof (tv_times w' _ _ _ _ _ _ (tv_times w' _ _ _ _ _ _ (tv_num w' c) (tv_powc w' _ _ _ _ (powc_ok_pred c _ Hok Hn) Tx')) TDx) as L.
+        pose proof (tv_times w _ _ _ _ _ _ (tv_times w _ _ _ _ _ _ (tv_num w c) (tv_powc w _ _ _ _ (powc_ok_pred c _ Hok Hn) Tx)) TDx') as Rr.
+        fin L Rr. rewrite (IH x) by (cbn [In]; auto). ring.
+      + assert (Hn : dyadic_is_int c <> Some 0%Z) by congruence.
+        pose proof (tv_times w' _ _ _ _ _ _ (tv_times w' _ _ _ _ _ _ (tv_num w' c) (tv_powc w' _ _ _ _ (powc_ok_pred c _ Hok Hn) Tx')) TDx) as L.
+        pose proof (tv_times w _ _ _ _ _ _ (tv_times w _ _ _ _ _ _ (tv_num w c) (tv_powc w _ _ _ _ (powc_ok_pred c _ Hok Hn) Tx)) TDx') as Rr.
+        fin L Rr. rewrite (IH x) by (cbn [In]; auto). ring.
+      + assert (Hn : dyadic_is_int c <> Some 0%Z) by congruence.
+        pose proof (tv_times w' _ _ _ _ _ _ (tv_times w' _ _ _ _ _ _ (tv_num w' c) (tv_powc w' _ _ _ _ (powc_ok_pred c _ Hok Hn) Tx')) TDx) as L.
+        pose proof (tv_times w _ _ _ _ _ _ (tv_times w _ _ _ _ _ _ (tv_num w c) (tv_powc w _ _ _ _ (powc_ok_pred c _ Hok Hn) Tx)) TDx') as Rr.
+        fin L Rr. rewrite (IH x) by (cbn [In]; auto). ring.
+    - (* MultSum *)
+      match goal with H : Forall _ kids |- _ => rename H into Hk; rewrite Forall_forall in Hk end.
+      cbn [dnode].
+      assert (L : tval w' (Node HMultSum (map (D w) kids)) (sumR (map val_at (map (D w) kids))) (sumR (map (dval_at w') (map (D w) kids)))).
+      { apply tv_multsum. intros t Ht. apply in_map_iff in Ht. destruct Ht as (k & <- & Hin).
+        destruct (kidT k (Hk k Hin)) as (_ & _ & TD & _). eauto. }
+      assert (Rr : tval w (Node HMultSum (map (D w') kids)) (sumR (map val_at (map (D w') kids))) (sumR (map (dval_at w) (map (D w') kids)))).
+      { apply tv_multsum. intros t Ht. apply in_map_iff in Ht. destruct Ht as (k & <- & Hin).
+        destruct (kidT k (Hk k Hin)) as (_ & _ & _ & TD). eauto. }
+      fin L Rr. rewrite !map_map. f_equal. apply map_ext_in. intros k Hin. apply IH; auto.
+    - (* LinUtil *)
+      match goal with H : Forall _ ps |- _ => rename H into Hps; rewrite Forall_forall in Hps end.
+      cbn [dnode]. rewrite !dlin_flatten.
+      set (F := fun v (p : expr * expr) => EBin Plus (EBin Times (D v (fst p)) (snd p)) (EBin Times (fst p) (D v (snd p)))).
+      change (dval_at w' (Node HMultSum (map (F w) ps)) = dval_at w (Node HMultSum (map (F w') ps))).
+      assert (Hin : forall p, In p ps -> In (fst p) (flatten_pairs ps) /\ In (snd p) (flatten_pairs ps)).
+      { clear. induction ps as [|[a b] ps IHp]; cbn [In flatten_pairs]; [tauto|].
+        intros p [<-|Hp]; cbn [fst snd]; [auto | destruct (IHp p Hp); auto]. }
+      assert (Tp : forall p, In p ps ->
+                 tval w' (F w p) (dval_at w (fst p) * val_at (snd p) + val_at (fst p) * dval_at w (snd p))
+                      ((dval_at w' (D w (fst p)) * val_at (snd p) + dval_at w (fst p) * dval_at w' (snd p)) +
+                       (dval_at w' (fst p) * dval_at w (snd p) + val_at (fst p) * dval_at w' (D w (snd p)))) /\
+                 tval w (F w' p) (dval_at w' (fst p) * val_at (snd p) + val_at (fst p) * dval_at w' (snd p))
+                      ((dval_at w (D w' (fst p)) * val_at (snd p) + dval_at w' (fst p) * dval_at w (snd p)) +
+                       (dval_at w (fst p) * dval_at w' (snd p) + val_at (fst p) * dval_at w (D w' (snd p))))).
+      { intros p Hp. destruct (Hps p Hp) as [Hb Hv].
+        destruct (kidT (fst p) Hb) as (Tb & Tb' & TDb & TDb'). destruct (kidT (snd p) Hv) as (Tv & Tv' & TDv & TDv').
+        split; unfold F.
+        - exact (tv_plus w' _ _ _ _ _ _ (tv_times w' _ _ _ _ _ _ TDb Tv') (tv_times w' _ _ _ _ _ _ Tb' TDv)).
+        - exact (tv_plus w _ _ _ _ _ _ (tv_times w _ _ _ _ _ _ TDb' Tv) (tv_times w _ _ _ _ _ _ Tb TDv')). }
+      assert (L : tval w' (Node HMultSum (map (F w) ps)) (sumR (map val_at (map (F w) ps))) (sumR (map (dval_at w') (map (F w) ps)))).
+      { apply tv_multsum. intros t Ht. apply in_map_iff in Ht. destruct Ht as (p & <- & Hp). destruct (Tp p Hp) as [X _]. eauto. }
+      assert (Rr : tval w (Node HMultSum (map (F w') ps)) (sumR (map val_at (map (F w') ps))) (sumR (map (dval_at w) (map (F w') ps)))).
+      { apply tv_multsum. intros t Ht. apply in_map_iff in Ht. destruct Ht as (p & <- & Hp). destruct (Tp p Hp) as [_ X]. eauto. }
+      fin L Rr. rewrite !map_map. apply sumR_ext. intros p Hp. destruct (Tp p Hp) as [X Y].
+      rewrite (proj2 (tv_val _ _ _ _ X)), (proj2 (tv_val _ _ _ _ Y)).
+      destruct (Hin p Hp) as [I1 I2]. destruct (Hps p Hp) as [Hb Hv].
+      rewrite (IH (fst p) I1 Hb), (IH (snd p) I2 Hv). ring.
+    - (* CondSum *)
+      match goal with H : Forall _ ps |- _ => rename H into Hps; rewrite Forall_forall in Hps end.
+      cbn [dnode]. rewrite !dcond_flatten.
+      set (G := fun v (p : expr * expr) => (fst p, D v (snd p))).
+      change (dval_at w' (ECondSum (map (G w) ps)) = dval_at w (ECondSum (map (G w') ps))).
+      assert (Hin : forall p, In p ps -> In (snd p) (flatten_pairs ps)).
+      { clear. induction ps as [|[a b] ps IHp]; cbn [In flatten_pairs]; [tauto|].
+        intros p [<-|Hp]; cbn [snd]; [auto | right; right; apply IHp, Hp]. }
+      assert (L : tval w' (ECondSum (map (G w) ps)) (csum val_at (map (G w) ps)) (csum (dval_at w') (map (G w) ps))).
+      { apply tv_condsum. intros q Hq. apply in_map_iff in Hq. destruct Hq as (p & <- & Hp).
+        destruct (Hps p Hp) as (_ & c & Ec & Hc). exists c. split; [exact Ec|]. intros Hn.
+        destruct (kidT (snd p) (Hc Hn)) as (_ & _ & TD & _). unfold G. cbn [snd]. eauto. }
+      assert (Rr : tval w (ECondSum (map (G w') ps)) (csum val_at (map (G w') ps)) (csum (dval_at w) (map (G w') ps))).
+      { apply tv_condsum. intros q Hq. apply in_map_iff in Hq. destruct Hq as (p & <- & Hp).
+        destruct (Hps p Hp) as (_ & c & Ec & Hc). exists c. split; [exact Ec|]. intros Hn.
+        destruct (kidT (snd p) (Hc Hn)) as (_ & _ & _ & TD). unfold G. cbn [snd]. eauto. }
+      fin L Rr. rewrite !csum_map by reflexivity. apply sumR_ext. intros p Hp.
+      destruct (Rnz (val_at (fst p))) eqn:En; [|reflexivity].
+      destruct (Hps p Hp) as (_ & c & Ec & Hc). unfold G. cbn [snd].
+      apply IH; [exact (Hin p Hp)|]. apply Hc. unfold val_at in En. rewrite Ec in En. exact (Rnz_true_inv c En).
+    - (* Elem *)
+      match goal with H : assoc_Z _ _ _ = Some sel |- _ => rename H into Hsel end.
+      match goal with H : dom Phi ws en sel |- _ => rename H into Hds end.
+      match goal with H : evalX _ key _ = XR _ |- _ => rename H into Hkey end.
+      destruct (kidT sel Hds) as (_ & _ & TD & TD').
+      cbn [dnode map].
+      pose proof (tv_elem w' keys key (map (D w) entries) z (D w sel) _ _ Hkey
+                    (eq_trans (assoc_Z_map (D w) z keys entries) (f_equal (option_map (D w)) Hsel)) TD) as L.
+      pose proof (tv_elem w keys key (map (D w') entries) z (D w' sel) _ _ Hkey
+                    (eq_trans (assoc_Z_map (D w') z keys entries) (f_equal (option_map (D w')) Hsel)) TD') as Rr.
+      fin L Rr. apply IH; [right; eapply assoc_Z_In; exact Hsel | exact Hds].
+    - (* LogLogit *)
+      match goal with H : forallb (pfree ws) avs = true |- _ => rename H into Havs end.
+      match goal with H : List.length us = _ |- _ => rename H into Hlen end.
+      match goal with H : evalX _ _ _ = XR r |- _ => rename H into Hr end.
+      match goal with H : forall k u a v, In (k, u) _ -> _ |- _ => rename H into Hdu end.
+      pose proof Hw as [Hwin (x0 & Hx0)].
+      pose proof (loglogit_inv Phi w en x0 uk ak choice us avs r Hlen) as Inv.
+      rewrite (upd_self en w x0 Hx0) in Inv.
+      destruct (Inv Hr) as (z & a & v & d & uc & ac & Ec & Euc & Evc & Eac & Eva & Hnz & Ed & Hpos).
+      set (sk := skel uk us ak avs).
+      destruct (den_real ak avs uk us d Ed) as [Hcr Hden]. fold sk in Hcr, Hden.
+      assert (Hsk : forall q, In q sk -> exists c, ev (fst q) en = XR c /\ (c <> 0 -> domE (snd q))).
+      { intros q Hq. destruct (Hcr q Hq) as (c & Ecq). exists c. split; [exact Ecq|]. intros Hc.
+        destruct (skel_in ak avs q uk us Hq) as (k & Hink & Hak). exact (Hdu k (snd q) (fst q) c Hink Hak Ecq Hc). }
+      assert (Hval : forall (q : expr * expr) c, ev (fst q) en = XR c -> val_at (fst q) = c) by (intros q c E; unfold val_at; rewrite E; reflexivity).
+      assert (HDen : csum val_at (map psi_den sk) = d).
+      { rewrite csum_map by reflexivity. rewrite Hden.
+        - apply sumR_ext. intros q Hq. destruct (Rnz (val_at (fst q))) eqn:En; [|reflexivity].
+          destruct (Hsk q Hq) as (c & Ecq & Hc). rewrite (Hval q c Ecq) in En.
+          destruct (kidT (snd q) (Hc (Rnz_true_inv c En))) as (Tu & _).
+          unfold psi_den. cbn [snd]. exact (proj1 (tv_val _ _ _ _ (tv_exp w _ _ _ Tu))).
+        - intros q Hq Hn. destruct (Hsk q Hq) as (c & Ecq & Hc). rewrite (Hval q c Ecq) in Hn.
+          destruct (kidT (snd q) (Hc Hn)) as ((Eu & _) & _). eauto. }
+      assert (HDen0 : csum val_at (map psi_den sk) <> 0) by (rewrite HDen; lra).
+      (* the pieces of the two trees *)
+      assert (TN : forall v1 v2, (v1 = w /\ v2 = w') \/ (v1 = w' /\ v2 = w) ->
+                   tval v2 (ECondSum (map (phi_num v1) sk)) (csum val_at (map (phi_num v1) sk)) (csum (dval_at v2) (map (phi_num v1) sk))).
+      { intros v1 v2 Hv. apply tv_condsum. intros q' Hq'. apply in_map_iff in Hq'. destruct Hq' as (q & <- & Hq).
+        destruct (Hsk q Hq) as (c & Ecq & Hc). exists c. split; [exact Ecq|]. intros Hn.
+        destruct (kidT (snd q) (Hc Hn)) as (Tu & Tu' & TDu & TDu'). unfold phi_num. cbn [snd].
+        destruct Hv as [[-> ->]|[-> ->]].
+        - eexists. eexists. exact (tv_times w' _ _ _ _ _ _ (tv_exp w' _ _ _ Tu') TDu).
+        - eexists. eexists. exact (tv_times w _ _ _ _ _ _ (tv_exp w _ _ _ Tu) TDu'). }
+      assert (TD : forall v2, v2 = w \/ v2 = w' ->
+                   tval v2 (ECondSum (map psi_den sk)) (csum val_at (map psi_den sk)) (csum (dval_at v2) (map psi_den sk))).
+      { intros v2 Hv. apply tv_condsum. intros q' Hq'. apply in_map_iff in Hq'. destruct Hq' as (q & <- & Hq).
+        destruct (Hsk q Hq) as (c & Ecq & Hc). exists c. split; [exact Ecq|]. intros Hn.
+        destruct (kidT (snd q) (Hc Hn)) as (Tu & Tu' & _). unfold psi_den. cbn [snd].
+        destruct Hv as [->| ->]; eexists; eexists; [exact (tv_exp w _ _ _ Tu) | exact (tv_exp w' _ _ _ Tu')]. }
+      assert (Hduc : domE uc) by (apply (Hdu z uc ac a); auto; apply assoc_Z_combine; exact Euc).
+      destruct (kidT uc Hduc) as (_ & _ & TDc & TDc').
+      cbn [dnode dloglogit map]. rewrite !map_app.
+      rewrite !firstn_len_app, !skipn_len_app by (rewrite ?map_length; exact Hlen).
+      rewrite !logit_num_kids_pairs, !logit_den_kids_pairs, !num_pairs_skel, !den_pairs_skel. fold sk.
+      change (Node HCondSum (flatten_pairs (map (phi_num w) sk))) with (ECondSum (map (phi_num w) sk)).
+      change (Node HCondSum (flatten_pairs (map (phi_num w') sk))) with (ECondSum (map (phi_num w') sk)).
+      change (Node HCondSum (flatten_pairs (map psi_den sk))) with (ECondSum (map psi_den sk)).
+      pose proof (tv_minus w' _ _ _ _ _ _
+                    (tv_elem w' uk choice (map (D w) us) z (D w uc) _ _ Ec
+                       (eq_trans (assoc_Z_map (D w) z uk us) (f_equal (option_map (D w)) Euc)) TDc)
+                    (tv_divide w' _ _ _ _ _ _ HDen0 (TN w w' (or_introl (conj eq_refl eq_refl))) (TD w' (or_intror eq_refl)))) as L.
+      pose proof (tv_minus w _ _ _ _ _ _
+                    (tv_elem w uk choice (map (D w') us) z (D w' uc) _ _ Ec
+                       (eq_trans (assoc_Z_map (D w') z uk us) (f_equal (option_map (D w')) Euc)) TDc')
+                    (tv_divide w _ _ _ _ _ _ HDen0 (TN w' w (or_intror (conj eq_refl eq_refl))) (TD w (or_introl eq_refl)))) as Rr.
+      fin L Rr.
+      assert (S1 : csum (dval_at w') (map (phi_num w) sk) = csum (dval_at w) (map (phi_num w') sk)).
+      { rewrite !csum_map by reflexivity. apply sumR_ext. intros q Hq.
+        destruct (Rnz (val_at (fst q))) eqn:En; [|reflexivity].
+        destruct (Hsk q Hq) as (c & Ecq & Hc). rewrite (Hval q c Ecq) in En.
+        pose proof (Hc (Rnz_true_inv c En)) as Hdq.
+        destruct (kidT (snd q) Hdq) as (Tu & Tu' & TDu & TDu'). unfold phi_num. cbn [snd].
+        rewrite (proj2 (tv_val _ _ _ _ (tv_times w' _ _ _ _ _ _ (tv_exp w' _ _ _ Tu') TDu))).
+        rewrite (proj2 (tv_val _ _ _ _ (tv_times w _ _ _ _ _ _ (tv_exp w _ _ _ Tu) TDu'))).
+        destruct (skel_in ak avs q uk us Hq) as (k & Hink & _).
+        rewrite (IH (snd q)); [ring | right; apply in_or_app; left; exact (in_combine_r _ _ _ _ Hink) | exact Hdq]. }
+      assert (S2 : forall v1, v1 = w \/ v1 = w' -> csum val_at (map (phi_num v1) sk) = csum (dval_at v1) (map psi_den sk)).
+      { intros v1 Hv. rewrite !csum_map by reflexivity. apply sumR_ext. intros q Hq.
+        destruct (Rnz (val_at (fst q))) eqn:En; [|reflexivity].
+        destruct (Hsk q Hq) as (c & Ecq & Hc). rewrite (Hval q c Ecq) in En.
+        destruct (kidT (snd q) (Hc (Rnz_true_inv c En))) as (Tu & Tu' & TDu & TDu'). unfold phi_num, psi_den. cbn [snd].
+        destruct Hv as [->| ->].
+        - rewrite (proj1 (tv_val _ _ _ _ (tv_times w' _ _ _ _ _ _ (tv_exp w' _ _ _ Tu') TDu))).
+          rewrite (proj2 (tv_val _ _ _ _ (tv_exp w _ _ _ Tu))). reflexivity.
+        - rewrite (proj1 (tv_val _ _ _ _ (tv_times w _ _ _ _ _ _ (tv_exp w _ _ _ Tu) TDu'))).
+          rewrite (proj2 (tv_val _ _ _ _ (tv_exp w' _ _ _ Tu'))). reflexivity. }
+      rewrite S1, (S2 w (or_introl eq_refl)), (S2 w' (or_intror eq_refl)).
+      rewrite (IH uc); [field; exact HDen0 | right; apply in_or_app; left; eapply assoc_Z_In; exact Euc | exact Hduc].
+  Qed.
+
+  (* T02c *)
+  Theorem hess_symmetric e : domE e -> ev (D w' (D w e)) en = ev (D w (D w' e)) en.
+  Proof.
+    intros Hd.
+    destruct (tv_dom w' (D w e) Hw' (dom_D' w e Hw Hd)) as (r1 & d1 & T1).
+    destruct (tv_dom w (D w' e) Hw (dom_D' w' e Hw' Hd)) as (r2 & d2 & T2).
+    rewrite (proj2 T1), (proj2 T2). f_equal.
+    rewrite <- (proj2 (tv_val _ _ _ _ T1)), <- (proj2 (tv_val _ _ _ _ T2)). apply hess_sym_dval. exact Hd.
+  Qed.
+End Sym.
+
+(* T02c in the form used by Properties/C02.v *)
+Theorem hess_symmetric_at (Phi : R -> R) :
+  (forall x, is_derive Phi x (D2R inv_sqrt_2pi * exp (- (x * x / 2)))) ->
+  forall (ws : list wrt) (en : env) (w w' : wrt) (x0 x0' : R) (e : expr),
+    In w ws -> In w' ws -> wrt_val en w = Some x0 -> wrt_val en w' = Some x0' -> dom Phi ws en e ->
+    evalX Phi (D w' (D w e)) en = evalX Phi (D w (D w' e)) en.
+Proof.
+  intros HP ws en w w' x0 x0' e Hw Hw' Hv Hv' Hd.
+  apply (hess_symmetric Phi HP ws en w w'); [split; eauto | split; eauto | exact Hd].
+Qed.
 
 (* ------------------------------------------------------------------ aggregation and scaling *)
 From BV Require Import Model.Pack.
